@@ -130,7 +130,8 @@ func (p *c15) meanwhile(rec *core.Recorder, r *core.Rand) {
 	l := &c15TsMem{c15Mem{m: map[string]c15Entry{"aa": {"⟦aa#1@L0⟧", 10}}, loads: map[string]int{}}}
 	e := twig.New()
 	e.RegisterLoader(l)
-	e.SetAutoReload(r.Bool() || stale)
+	auto := r.Bool() || stale
+	e.SetAutoReload(auto)
 	trace := fmt.Sprintf("stale=%v", stale)
 	if stale {
 		if out, err := e.Render("aa", nil); err != nil || out != "⟦aa#1@L0⟧" {
@@ -140,7 +141,29 @@ func (p *c15) meanwhile(rec *core.Recorder, r *core.Rand) {
 		l.m["aa"] = c15Entry{"⟦aa#2@L0⟧", 20}
 	}
 	cur := l.m["aa"].src
-	kind := r.Intn(3)
+	kind := r.Intn(4)
+	if kind == 3 && !auto {
+		kind = r.Intn(3)
+	}
+	if kind == 3 {
+		// the template changes in the loader (newer modification time) while the engine is reading it: with auto-reload on the
+		// next call sees that version, whichever of the two the read in flight got
+		l.duringLoad = func() { l.m["aa"] = c15Entry{"⟦aa#7@L0⟧", 30} }
+		rec.Eval("meanwhile", fmt.Sprintf("%v/changed-during-read", stale), true)
+		rec.Count("changes-during-a-load", 1)
+		out1, err1 := e.Render("aa", nil)
+		out2, err2 := e.Render("aa", nil)
+		cs := map[string]any{"trace": fmt.Sprintf("%s; auto-reload on; the loader's copy changed (mtime 30) during the read; render in flight gave %q, next render %q", trace, out1, out2)}
+		if err1 != nil || (out1 != cur && out1 != "⟦aa#7@L0⟧") {
+			rec.Violate("cache-model", "changed-during-read-inflight", fmt.Sprintf("the render during which the template changed gave %q (err=%v), want %q or the new version", out1, err1, cur), cs, "")
+			return
+		}
+		if err2 != nil || out2 != "⟦aa#7@L0⟧" {
+			rec.Violate("cache-model", "change-during-read-never-seen",
+				fmt.Sprintf("a template changed in a timestamp-aware loader while the engine was reading it; with auto-reload on the next call still serves %q (err=%v) instead of the changed version", out2, err2), cs, "")
+		}
+		return
+	}
 	l.duringLoad = func() {
 		switch kind {
 		case 0:
@@ -168,10 +191,77 @@ func (p *c15) meanwhile(rec *core.Recorder, r *core.Rand) {
 	}
 }
 
+// relative: an include written "./x" or "../x" that only exists under the name as written. Finding it that way is a lookup
+// like any other: the name tried first (resolved against the including template's directory) stays unknown to the cache
+// and to Load, and the included template follows the most recent registration / the loader's newer version.
+func (p *c15) relative(rec *core.Recorder, r *core.Rand) {
+	written := []string{"./part", "../part", "./sub/part"}[r.Intn(3)]
+	mainName := []string{"pages/main", "a/b/main", "pages/deep/er/main"}[r.Intn(3)]
+	resolved := map[string]string{"./part": "/part", "../part": "/part", "./sub/part": "/sub/part"}[written]
+	dir := mainName[:strings.LastIndex(mainName, "/")]
+	if written == "../part" {
+		dir = dir[:strings.LastIndex(dir+"/", "/")]
+		if i := strings.LastIndex(dir, "/"); i >= 0 {
+			dir = dir[:i]
+		} else {
+			dir = ""
+		}
+	}
+	resolvedName := strings.TrimPrefix(dir+resolved, "/")
+	viaLoader := r.Bool()
+	cacheOn := r.P(3, 4) || !viaLoader // (with the cache off only loaders serve templates)
+	l := &c15TsMem{c15Mem{m: map[string]c15Entry{}, loads: map[string]int{}}}
+	e := twig.New()
+	e.RegisterLoader(l)
+	e.SetCache(cacheOn)
+	e.SetAutoReload(viaLoader)
+	mainSrc := "M[{% include '" + written + "' %}|{% for i in [1, 2] %}{% include '" + written + "' %}{% endfor %}]"
+	put := func(name, src string, mtime int64) {
+		if viaLoader {
+			l.m[name] = c15Entry{src, mtime}
+		} else {
+			e.RegisterString(name, src)
+		}
+	}
+	put(mainName, mainSrc, 10)
+	put(written, "⟦part#1@W⟧", 10)
+	trace := fmt.Sprintf("main %q includes %q (exists only as written; resolved name %q); viaLoader=%v cache=%v", mainName, written, resolvedName, viaLoader, cacheOn)
+	rec.Eval("relative", trace, true)
+	rec.Count("relative-include-histories", 1)
+	cs := map[string]any{"trace": trace}
+	want := func(v string) string { return "M[" + v + "|" + v + v + "]" }
+	out1, err1 := e.Render(mainName, nil)
+	if err1 != nil || out1 != want("⟦part#1@W⟧") {
+		rec.Violate("cache-model", "relative-first-render", fmt.Sprintf("first render gave %q (err=%v), want %q", out1, err1, want("⟦part#1@W⟧")), cs, "")
+		return
+	}
+	for _, n := range e.VerifCachedNames() {
+		if n != mainName && n != written {
+			rec.Violate("cache-model", "relative-miss-cached", fmt.Sprintf("after the render the cache holds %q, a name no loader has and nobody registered (names: %v)", n, e.VerifCachedNames()), cs, "")
+			return
+		}
+	}
+	if _, err := e.Load(resolvedName); err == nil || !errors.Is(err, twig.ErrTemplateNotFound) {
+		rec.Violate("cache-model", "relative-miss-loadable", fmt.Sprintf("Load(%q) - a name no loader has - gave err=%v after an include fell back from it to %q", resolvedName, err, written), cs, "")
+		return
+	}
+	put(written, "⟦part#2@W⟧", 20)
+	out2, err2 := e.Render(mainName, nil)
+	if err2 != nil || out2 != want("⟦part#2@W⟧") {
+		rec.Violate("cache-model", "relative-stale", fmt.Sprintf("after %q was %s, the including template renders %q (err=%v), want %q", written, map[bool]string{true: "changed in the loader (newer mtime, auto-reload on)", false: "registered again"}[viaLoader], out2, err2, want("⟦part#2@W⟧")), cs, "")
+		return
+	}
+	rec.Count("calls-checked", 3)
+}
+
 func (p *c15) Run(rec *core.Recorder, seed uint64, idx int, tier string) {
 	twig.SetDebugWriter(io.Discard)
 	if idx%25 == 7 {
 		p.meanwhile(rec, core.NewRand("C15m", seed, idx))
+		return
+	}
+	if idx%25 == 13 {
+		p.relative(rec, core.NewRand("C15r", seed, idx))
 		return
 	}
 	r := core.NewRand("C15", seed, idx)
